@@ -10,7 +10,8 @@ CONFIG = {
                   "groups incl. 'z' and short final group with the v/w/x substitution; basE91 by a simulation invariant over the "
                   "14 reachable pending-bit states). C08_partial = all three for the whole FromCode registry except Base192; "
                   "C08_witness_b192 is the kernel-checked counter-example for Base192 (open finding C08-F1); its length bound is "
-                  "proved. The model is tied to the Go code by regenerated facts (alphabets, codes, ratios, registry, substitution "
+                  "proved. C08_length_exact_b32/_b64/_b64u/_b128 (|encode bs| = ceil(8|bs|/k)) and C08_length_tight_b85/_b91 give "
+                  "the lengths without the +8 slack (used by C09's size-budget theorem). The model is tied to the Go code by regenerated facts (alphabets, codes, ratios, registry, substitution "
                   "pairs, three repaired shapes) and by running Encode/Decode of the real encoders against the model.",
     "level_note": "Partial: Base192 ('Y') neither round-trips nor is DNS-safe (recorded, not repaired). Library code "
                   "(encoding/base32, base64, ascii85, mtraver/base91, luci base128.DecodeString) is modelled at algorithm level "
